@@ -39,6 +39,16 @@ CHECKS = {
             'connection+namespace+id with exactly the acknowledged arguments, '
             'wrong ACKs cause no callback and no contained error, call() '
             'result shaping and TimeoutError.'),
+    'C09': ('DESIGN 4/C09',
+            'Seeded search over histories of server-sent EVENT / BINARY_EVENT '
+            '/ ACK / BINARY_ACK frames from a scripted server (real engine.io, '
+            'scripted Socket.IO layer) with adversarial ids, interleaved with '
+            'client emits with callbacks and call()s on 1-3 namespaces, for '
+            'the real Client (fifo thread schedule) and AsyncClient with '
+            'pausing coroutine handlers and callbacks; oracle = precedence '
+            'model for the responsible handler, exact ACK multiset at the '
+            'server, outstanding-id model for callbacks, call() shaping and '
+            'TimeoutError in virtual time.'),
     'C11': ('DESIGN 4/C11',
             'Seeded search over generations of wire peers living random lives '
             '(connects incl. refused, rooms, events incl. malformed, binary '
